@@ -84,15 +84,19 @@ class TCPServer:
         if isinstance(event, RawData):
             async with self.send_lock:
                 try:
-                    with trio.CancelScope() as cancel_scope:
-                        cancel_scope.shield = True
-                        await self.stream.send_all(event.data)
+                    await self.stream.send_all(event.data)
                 except (
                     trio.BrokenResourceError,
                     trio.BusyResourceError,  # Sends are serialised, so it is being closed
                     trio.ClosedResourceError,
                 ):
                     await self.protocol.handle(Closed())
+                except trio.Cancelled:
+                    # A send cut short leaves the stream unusable, and
+                    # shielding it instead would wait for ever on a
+                    # client that does not read.
+                    await trio.aclose_forcefully(self.stream)
+                    raise
         elif isinstance(event, Closed):
             await self._close()
             await self.protocol.handle(Closed())
